@@ -99,8 +99,12 @@ impl<'a> G<'a> {
                 let u = *self.rng.pick(&["-", "not", "#"]);
                 let mut x = self.exp(d - 1, va);
                 if let E::Bin(o, _, _) = &x { if binfo(o).0 < 12 { x = E::Paren(Box::new(x)); } }
+                // a minus in front of a minus, bare or already in parentheses (the guard of the parenthesis rule; C06)
+                if u == "-" && self.rng.chance(1, 3) { x = E::Un("-", Box::new(x)); if self.rng.chance(1, 2) { x = E::Paren(Box::new(x)); } }
                 E::Un(u, Box::new(x))
             }
+            // parentheses that must stay around a double minus (what is inside could be truncated): the shape of the listed C06 finding
+            4 if self.rng.chance(1, 6) => { let x = self.prefix(d, va); E::Paren(Box::new(E::Un("-", Box::new(E::Un("-", Box::new(x)))))) }
             4 | 5 => E::Paren(Box::new(self.exp(d - 1, va))),
             6 | 7 => self.prefix(d, va),
             8 => self.table(d - 1, va),
@@ -446,10 +450,14 @@ pub fn main(args: &[String]) {
             records += 1;
             for (o, v) in [("quote", style), ("call_parentheses", callp), ("space_after_function_names", space), ("collapse_simple_statement", collapse)] { *dist.entry(format!("{}_{}", o, v)).or_insert(0) += 1; }
             match format_guarded(&src, cfg, None) {
-                Outcome::Ok(o) => println!("L0 g{} {} {} {} {}/{}/{}/{} {} {} ok {}", k, win, spaces, width, style, callp, space, collapse, tree, hex(src.as_bytes()), hex(o.as_bytes())),
-                Outcome::ParseError => println!("L0 g{} {} {} {} {}/{}/{}/{} {} {} parseerror -", k, win, spaces, width, style, callp, space, collapse, tree, hex(src.as_bytes())),
-                Outcome::OtherError(_) => println!("L0 g{} {} {} {} {}/{}/{}/{} {} {} error -", k, win, spaces, width, style, callp, space, collapse, tree, hex(src.as_bytes())),
-                Outcome::Panic(_) => println!("L0 g{} {} {} {} {}/{}/{}/{} {} {} panic -", k, win, spaces, width, style, callp, space, collapse, tree, hex(src.as_bytes())),
+                Outcome::Ok(o) => {
+                    // the second pass: the library on its own output, under the same configuration (C06)
+                    let second = match format_guarded(&o, cfg, None) { Outcome::Ok(o2) => hex(o2.as_bytes()), Outcome::ParseError => "parseerror".to_string(), Outcome::OtherError(_) => "error".to_string(), Outcome::Panic(_) => "panic".to_string() };
+                    println!("L0 g{} {} {} {} {}/{}/{}/{} {} {} ok {} {}", k, win, spaces, width, style, callp, space, collapse, tree, hex(src.as_bytes()), hex(o.as_bytes()), second)
+                }
+                Outcome::ParseError => println!("L0 g{} {} {} {} {}/{}/{}/{} {} {} parseerror - -", k, win, spaces, width, style, callp, space, collapse, tree, hex(src.as_bytes())),
+                Outcome::OtherError(_) => println!("L0 g{} {} {} {} {}/{}/{}/{} {} {} error - -", k, win, spaces, width, style, callp, space, collapse, tree, hex(src.as_bytes())),
+                Outcome::Panic(_) => println!("L0 g{} {} {} {} {}/{}/{}/{} {} {} panic - -", k, win, spaces, width, style, callp, space, collapse, tree, hex(src.as_bytes())),
             }
         }
     }
